@@ -53,6 +53,7 @@ type escn struct {
 	BlackBy  int // node that blacklists ...
 	BlackOf  int // ... the IP of this node (-1: none)
 	BlackF   int
+	DialOnly int // index of a node started without listen addresses (it can only dial out; peers see it as 127.0.0.1), -1: none
 	Events   []eev
 }
 
@@ -95,6 +96,10 @@ func genScenario() *rapid.Generator[escn] {
 			s.BlackOf = (s.BlackBy + 1 + rapid.IntRange(0, s.N-2).Draw(t, "blackOf")) % s.N
 			s.BlackF = rapid.IntRange(0, 2).Draw(t, "blackForm")
 		}
+		s.DialOnly = -1
+		if !s.V6 && rapid.IntRange(0, 2).Draw(t, "dialOnly") == 0 {
+			s.DialOnly = rapid.IntRange(0, s.N-1).Draw(t, "dialOnlyNode")
+		}
 		pair := func(e *eev) {
 			e.From = rapid.IntRange(0, s.N-1).Draw(t, "from")
 			e.To = (e.From + 1 + rapid.IntRange(0, s.N-2).Draw(t, "to")) % s.N
@@ -115,6 +120,13 @@ func genScenario() *rapid.Generator[escn] {
 		for c := 0; c < cycles; c++ {
 			var off eev
 			pair(&off)
+			dialOnlyOffender := false
+			if s.DialOnly >= 0 && rapid.IntRange(0, 3).Draw(t, "dialOnlyOffends") > 0 {
+				// the peer without listen addresses misbehaves towards a listening node
+				off.From = s.DialOnly
+				off.To = (s.DialOnly + 1 + rapid.IntRange(0, s.N-2).Draw(t, "victim")) % s.N
+				dialOnlyOffender = true
+			}
 			for i := rapid.IntRange(0, 2).Draw(t, "nPre"); i > 0; i-- {
 				e := eev{Kind: rapid.SampledFrom([]string{"req", "burst", "app", "burst"}).Draw(t, "pre"), From: off.From, To: off.To}
 				if rapid.IntRange(0, 3).Draw(t, "preOther") == 0 {
@@ -131,6 +143,15 @@ func genScenario() *rapid.Generator[escn] {
 			e.Extra = rapid.IntRange(0, 3*(s.Limit+1)).Draw(t, "extra")
 			e.K = rapid.SampledFrom([]int{0, 0, 40, 99, 100, 120}).Draw(t, "k")
 			e.Bytes = genMalformed(t)
+			if dialOnlyOffender {
+				// handler-issued BanPeer / ApplyPenalty up to the threshold are the paths that must find the peer's real IP
+				switch rapid.SampledFrom([]string{"ban", "ban", "penalty", "asDrawn", "asDrawn"}).Draw(t, "dialOnlyOffence") {
+				case "ban":
+					e.Kind, e.K = "app", 0
+				case "penalty":
+					e.Kind, e.K = "app", rapid.SampledFrom([]int{100, 120}).Draw(t, "kFull")
+				}
+			}
 			s.Events = append(s.Events, e)
 			// more of the same until banned is handled at run time (a burst/app may stay below the threshold)
 			for i := rapid.IntRange(1, 3).Draw(t, "nDials"); i > 0; i-- {
@@ -171,6 +192,8 @@ type enode struct {
 	cnt      map[string]map[int]int // procedure -> peer index -> messages counted since the last reset/penalty
 	stopGate func()
 	cause    map[int]string // last penalty cause per peer index
+	dialOnly bool           // started without listen addresses
+	started  bool
 }
 
 type erun struct {
@@ -200,6 +223,9 @@ func (r *erun) setup() error {
 		if s.V6 {
 			n.ip = "::1"
 			addr = "/ip6/::1/tcp/0"
+		} else if i == s.DialOnly {
+			n.dialOnly = true
+			n.ip = "127.0.0.1" // no listen socket to dial from: the kernel picks the loopback source address
 		} else {
 			n.ip = fmt.Sprintf("127.0.0.%d", s.IPs[i])
 			addr = "/ip4/" + n.ip + "/tcp/0"
@@ -216,7 +242,11 @@ func (r *erun) setup() error {
 		if s.BlackOf >= 0 && s.BlackBy == i {
 			bl = []string{blacklistForm(r.nodes[s.BlackOf].ip, s.BlackF)}
 		}
-		cfg := &p2p.Config{Addresses: []string{addr}, ChainID: []byte{0xc1, 0x80, 0x00, 0x01}, Version: "1.0", ConnectionSecurity: s.Security, BlacklistedIPs: bl}
+		listen := []string{addr}
+		if n.dialOnly {
+			listen = nil
+		}
+		cfg := &p2p.Config{Addresses: listen, ChainID: []byte{0xc1, 0x80, 0x00, 0x01}, Version: "1.0", ConnectionSecurity: s.Security, BlacklistedIPs: bl}
 		c := p2p.NewConnection(nopLogger{}, cfg)
 		n.conn = c
 		n.bm = newBanModel(expiry, sweep, bl)
@@ -250,6 +280,11 @@ func (r *erun) setup() error {
 			return err
 		}
 		n.stopGate = stop
+		n.started = true
+		if n.dialOnly {
+			n.info = &p2p.AddrInfo{ID: c.ID()}
+			continue
+		}
 		addrs, err := c.MultiAddress()
 		if err != nil || len(addrs) == 0 {
 			return fmt.Errorf("no listen address on node %d: %v", i, err)
@@ -267,7 +302,7 @@ func (r *erun) teardown() {
 		if n.stopGate != nil {
 			n.stopGate()
 		}
-		if n.conn != nil && n.info != nil {
+		if n.conn != nil && n.started {
 			_ = n.conn.Stop()
 		}
 	}
@@ -316,6 +351,9 @@ func (r *erun) zone(x, y int) string {
 // dial from a to b and judge the outcome against both gaters' models.
 func (r *erun) dial(a, b int, why string) string {
 	A, B := r.nodes[a], r.nodes[b]
+	if B.dialOnly {
+		return r.probeOut(a, b, why)
+	}
 	if r.connected(a, b) || r.connected(b, a) {
 		_ = A.conn.Disconnect(B.conn.ID())
 		_ = B.conn.Disconnect(A.conn.ID())
@@ -384,6 +422,44 @@ func (r *erun) dial(a, b int, why string) string {
 	return ""
 }
 
+// fakePeer: a well-formed peer ID nobody uses; outbound probes dial it so that the probed address does not enter the
+// peerstore entry of a real peer.
+const fakePeer = "12D3KooWB4J4mraN1nAB9Ge5w8JrzGRKDQ3iGyDyHZdbMWDtYg3R"
+
+// probeOut: b cannot be dialled (no listen address), but an outbound attempt towards its IP still passes a's
+// InterceptAddrDial: a dials a closed port on that IP. A ban/blacklisting shows as libp2p's "gater disallows connection"
+// / "no good addresses"; an accepted attempt runs into "connection refused" instead.
+func (r *erun) probeOut(a, b int, why string) string {
+	A, B := r.nodes[a], r.nodes[b]
+	info, err := p2p.AddrInfoFromMultiAddr("/ip4/" + B.ip + "/tcp/1/p2p/" + fakePeer)
+	if err != nil {
+		r.res.infra = "probe address: " + err.Error()
+		return ""
+	}
+	A.conn.VerifClearDialBackoff(info.ID)
+	za := r.zone(a, b)
+	ctx, cancel := context.WithTimeout(context.Background(), 5*time.Second)
+	t0 := time.Now()
+	err = A.conn.Connect(ctx, *info)
+	t1 := time.Now()
+	cancel()
+	if err == nil {
+		_ = A.conn.Disconnect(info.ID)
+		r.res.infra = "environment: something listens on " + B.ip + ":1"
+		return ""
+	}
+	refused := strings.Contains(err.Error(), "gater disallows") || strings.Contains(err.Error(), "no good addresses")
+	r.logf("outbound probe %s -> %s:1 (%s): refused by the gater=%v  [%s's view of %s: %s] %s", r.name(a), B.ip, why, refused, r.name(a), B.ip, za, errText(err))
+	r.res.labels["probe-out:"+za] = true
+	if v, soft := A.bm.gate(B.ip, gAddrDial, !refused, t0, t1); v != "" {
+		if soft && r.banListClears(a, b) == "" {
+			return ""
+		}
+		return fmt.Sprintf("outbound attempt %s -> %s: %s", r.name(a), B.ip, v)
+	}
+	return ""
+}
+
 // listedOnce feeds one listBannedPeers observation of y's IP at x into x's model.
 func (r *erun) listedOnce(x, y int) (string, bool) {
 	X, Y := r.nodes[x], r.nodes[y]
@@ -422,7 +498,11 @@ func (r *erun) ensureConnected(a, b int) (bool, string) {
 	if r.zone(a, b) != "clean" || r.zone(b, a) != "clean" {
 		return false, ""
 	}
-	if v := r.dial(a, b, "to exchange messages"); v != "" || r.res.infra != "" {
+	from, to := a, b
+	if r.nodes[b].dialOnly {
+		from, to = b, a // only the node without listen addresses can open this connection
+	}
+	if v := r.dial(from, to, "to exchange messages"); v != "" || r.res.infra != "" {
 		return false, v
 	}
 	return r.connected(a, b), ""
@@ -461,6 +541,9 @@ func (r *erun) expectPenalty(x, y int, exact int, cause string, t0 time.Time) st
 	}
 	if st.banned {
 		r.res.labels["banned-by:"+cause] = true
+		if Y.dialOnly {
+			r.res.labels["dial-only-peer-banned-by:"+cause] = true
+		}
 		return r.afterBan(x, y, cause)
 	}
 	return ""
@@ -793,16 +876,23 @@ func runScenario(s escn) *seqResult {
 	for _, n := range r.nodes {
 		ips = append(ips, n.ip)
 	}
-	r.logf("scenario legal=%v nodes=%v security=%s expiry=%ds sweep=%dms limit=%d penalty=%d blacklist: node %d lists node %d (form %d)", s.Legal, ips, s.Security, s.ExpiryS, s.SweepMs, s.Limit, s.Penalty, s.BlackBy, s.BlackOf, s.BlackF)
+	r.logf("scenario legal=%v nodes=%v security=%s expiry=%ds sweep=%dms limit=%d penalty=%d blacklist: node %d lists node %d (form %d) dialOnly=node %d", s.Legal, ips, s.Security, s.ExpiryS, s.SweepMs, s.Limit, s.Penalty, s.BlackBy, s.BlackOf, s.BlackF, s.DialOnly)
 	if s.V6 {
 		res.labels["e2e-ipv6"] = true
 	}
 	if s.BlackOf >= 0 {
 		res.labels["e2e-blacklist"] = true
 	}
+	if s.DialOnly >= 0 {
+		res.labels["e2e-dial-only-node"] = true
+	}
 	// sanity of the environment: the IP a node sees for its peer is the peer's listen IP (reuseport dialing)
 	if s.BlackOf < 0 {
-		if v := r.dial(0, 1, "environment check"); v != "" {
+		from, to := 0, 1
+		if r.nodes[1].dialOnly {
+			from, to = 1, 0
+		}
+		if v := r.dial(from, to, "environment check"); v != "" {
 			res.violation = v
 			return res
 		}
@@ -811,7 +901,7 @@ func runScenario(s escn) *seqResult {
 		}
 	}
 	var key strings.Builder
-	fmt.Fprintf(&key, "%v|%v|%s|%d|%d|%d|%d|%d>%d.%d|", s.Legal, ips, s.Security, s.ExpiryS, s.SweepMs, s.Limit, s.Penalty, s.BlackBy, s.BlackOf, s.BlackF)
+	fmt.Fprintf(&key, "%v|%v|%s|%d|%d|%d|%d|%d>%d.%d|D%d|", s.Legal, ips, s.Security, s.ExpiryS, s.SweepMs, s.Limit, s.Penalty, s.BlackBy, s.BlackOf, s.BlackF, s.DialOnly)
 	for _, e := range s.Events {
 		if e.From >= s.N || e.To >= s.N || e.From == e.To {
 			continue
